@@ -53,16 +53,18 @@ func (c *Compactor) majorCompaction(levels *LevelList, sar SAR) (*ChangeSet, err
 	// Go through all non-base levels from oldest to newest and pick tables to
 	// merge into base level.
 	var tablesToMerge []*Table
+pickTables:
 	for level := range levels.AscendLevels(1) {
 		tableIter := slices.SortedFunc(level.AllTables(), OrderOldToNew)
 
 		// Keep adding tables and recalculating SAR until we've met the Space
-		// Amplification goal.
+		// Amplification goal. Once it is met no newer level may be touched: tables
+		// left behind in this level would end up above newer data moved to the base.
 		for _, candidate := range tableIter {
 			sar = sar.WithCompactedBytes(int64(candidate.Size()))
 			tablesToMerge = append(tablesToMerge, candidate)
 			if sar.Percentage() < c.MaxSizeAmplificationPercent {
-				break
+				break pickTables
 			}
 		}
 	}
